@@ -106,6 +106,26 @@ theorem extract_failed_run (c : Cfg) (root : Path) (es : List EntryView) (fs fs1
         some er) := by
   unfold extractSeek; rw [h]
 
+/-- **A failed run (streaming).** A failure while the files are placed precedes every central record:
+no mode is known and none is applied.  When all files are placed and a central record is rejected
+(`enclosed_name`), the modes of the central records BEFORE it (`checkedCount` of them) are applied to
+what the placing left, best effort, and the error is `InvalidArchive("Invalid file path")`. -/
+theorem extractStream_failed_placing (c : Cfg) (root : Path) (files : List EntryView)
+    (metas : List (Name × Option Nat)) (fs fs1 : FS) (er : Err)
+    (h : placeFiles c false root files fs = (fs1, some er)) :
+    extractStream c root files metas fs = (fs1, some er) := by
+  unfold extractStream; rw [h]
+
+theorem extractStream_failed_central (c : Cfg) (root : Path) (files : List EntryView)
+    (metas : List (Name × Option Nat)) (fs fs1 : FS) (er : Err)
+    (h : placeFiles c false root files fs = (fs1, none)) (hm : checkMetas metas = some er) :
+    extractStream c root files metas fs =
+      ((applyModes c root (modeOrder (metas.take (checkedCount metas))) fs1).1, some er) := by
+  unfold extractStream; rw [h]
+  cases metas with
+  | nil => simp [checkMetas] at hm
+  | cons m r => simp only [hm]
+
 /-- **Unsafe name ⇒ error (streaming)**: in a local header or in a central record. -/
 theorem extractStream_unsafe_errors (c : Cfg) (root : Path) (files : List EntryView)
     (metas : List (Name × Option Nat)) (fs : FS)
@@ -255,6 +275,12 @@ example : (extractSeek cfg root0 secretThenBad fs0).1.lookup ["t".toList, "bad".
     = some (.file [2] 0o644) := by decide
 example : (extractSeek cfg root0 [{ name := "secret".toList, data := [1], mode := some 0o100600 },
     { name := "../x".toList }] fs0).1.lookup ["t".toList, "secret".toList] = some (.file [1] 0o600) := by decide
+/-- streaming: both files are written, the second central record carries an unsafe name -/
+example : (extractStream cfg root0 [{ name := "secret".toList, data := [1] }, { name := "fine".toList, data := [2] }]
+      [("secret".toList, some 0o100600), ("../x".toList, some 0o100644)] fs0).2 = some .invalidPath := by decide
+example : (extractStream cfg root0 [{ name := "secret".toList, data := [1] }, { name := "fine".toList, data := [2] }]
+      [("secret".toList, some 0o100600), ("../x".toList, some 0o100644)] fs0).1.lookup
+        ["t".toList, "secret".toList] = some (.file [1] 0o600) := by decide
 
 -- "a/../b" is accepted by `enclosed_name`; the kernel needs `a` to exist for the walk, so
 -- `create_dir_all("t/a/..")` creates it: the tree has BOTH `a` and `b`
